@@ -87,7 +87,9 @@ static void one_call(void) {
             else if (fn == 13) r = maxPolygonToCellsSizeExperimental(&g_poly, pr, fl, &n);
             else { H3Error rs = fn == 12 ? maxPolygonToCellsSize(&g_poly, pr, fl, &n) : maxPolygonToCellsSizeExperimental(&g_poly, pr, fl, &n);
                    if (fn == 12 && (rs || n > 300000 || n < 0)) { r = rs; g_f = "other"; break; }   /* legacy fill: no documented buffer size available */
-                   if (rs || n > 300000 || n < 0) n = 16; H3Index *o = gb_alloc(n, 8, 0);
+                   if (rs || n > 300000 || n < 0) n = 16;
+                   if (fn == 14 && vt_randn(2)) n = (int64_t)vt_randn((uint64_t)n + 1);      /* any capacity is a documented size for the experimental fill */
+                   H3Index *o = gb_alloc(n, 8, 0);
                    r = fn == 12 ? polygonToCells(&g_poly, pr, fl, o) : polygonToCellsExperimental(&g_poly, pr, fl, n, o); g_guard = gb_ok(o); if (!r) prod_arr(o, n); gb_free(o);
                  }
             X(",\"res\":%d,\"flags\":%d", pr, (int)(fl > 0x7fffffffu ? -1 : (int)fl)); break; }
